@@ -126,7 +126,7 @@ func TestVerifC18ConnectError(t *testing.T) {
 }
 
 func TestVerifC18Headers(t *testing.T) {
-	rep := verifkit.Begin("C18", "headers", "random header lists through AddHeaders/AddTrailers -> http.Header -> ConvertToProtoHeader; law: every key kept up to case, values in order, repeated keys merged; distinct = header lists")
+	rep := verifkit.Begin("C18", "headers", "random header lists through AddHeaders/AddTrailers -> http.Header -> ConvertToProtoHeader; law: every key kept up to case, values in order, repeated keys merged; two results filled from one list (1-7 values per name, slices with spare capacity) stay independent of each other and of the list under later Add / in-place edits; distinct = header lists")
 	defer rep.Write()
 	rng := verifkit.Stream("c18hdr")
 	n := verifkit.Scale(20000, 1500000)
@@ -135,7 +135,7 @@ func TestVerifC18Headers(t *testing.T) {
 		want := map[string][]string{}
 		for k := rng.Intn(6); k > 0; k-- {
 			h := &conformancev1.Header{Name: verifkit.HeaderName(rng, rng.Chance(1, 4))}
-			for v := 1 + rng.Intn(3); v > 0; v-- {
+			for v := 1 + rng.Intn(3) + 4*rng.Intn(2)*rng.Intn(2); v > 0; v-- {
 				h.Value = append(h.Value, verifkit.Pick(rng, []string{"a", "B", "c d", "e,f", "", "Zz"}))
 			}
 			hs = append(hs, h)
@@ -151,6 +151,37 @@ func TestVerifC18Headers(t *testing.T) {
 		}
 		if !reflect.DeepEqual(got, want) && len(want)+len(got) > 0 {
 			rep.Violation("conv/headers/roundtrip", fmt.Sprintf("AddHeaders -> ConvertToProtoHeader: got %v want %v", got, want), fmt.Sprint(hs))
+		}
+		// the results stay what they are: two destinations filled from the same list are independent of each
+		// other and of the list, whatever is added to or changed in one of them afterwards
+		if len(hs) > 0 {
+			snapshot := fmt.Sprint(hs)
+			d1, d2 := http.Header{}, http.Header{}
+			AddHeaders(hs, d1)
+			AddHeaders(hs, d2)
+			for _, h := range hs {
+				d1.Add(h.Name, "added-to-first")
+			}
+			for _, h := range hs {
+				d2.Add(h.Name, "added-to-second")
+			}
+			for k, vs := range d2 {
+				if len(vs) > 0 {
+					vs[0] = "edited-in-second"
+				}
+				_ = k
+			}
+			for _, h := range hs {
+				for _, v := range d1.Values(h.Name) {
+					if v == "added-to-second" || v == "edited-in-second" {
+						rep.Violation("conv/headers/results-share-storage", fmt.Sprintf("a value added to / edited in a second http.Header filled from the same list shows up in the first: %s=%q", h.Name, d1.Values(h.Name)), snapshot)
+					}
+				}
+			}
+			if fmt.Sprint(hs) != snapshot {
+				rep.Violation("conv/headers/results-share-storage-with-source", fmt.Sprintf("editing the http.Header changed the header list it was filled from: %v", hs), snapshot)
+			}
+			rep.Count("aliasing_histories", 1)
 		}
 		tr := http.Header{}
 		AddTrailers(hs, tr)
